@@ -4,6 +4,7 @@ import (
 	"fmt"
 	"reflect"
 	"testing"
+	"time"
 
 	"pgregory.net/rapid"
 
@@ -13,6 +14,7 @@ import (
 // C06 — audience, one-time-use and proxy warnings mirror the signed conditions exactly.
 
 type C06Case struct {
+	Window  string           `json:"window"` // in | not-yet-valid | conditions-expired (accepted with InvalidTime)
 	SP      h.SPConfig       `json:"sp"`
 	First   h.AssertionModel `json:"first"` // conditions of the first assertion (the one that counts)
 	Others  int              `json:"others"`
@@ -51,6 +53,7 @@ func genC06(t *rapid.T) C06Case {
 		sp.Audience = "HTTPS://SP.example.com/Metadata/"
 	}
 	c := C06Case{SP: sp, Mode: rapid.SampledFrom([]string{"response", "assertions", "both", "skip"}).Draw(t, "mode"), Others: rapid.IntRange(0, 2).Draw(t, "others")}
+	c.Window = rapid.SampledFrom([]string{"in", "in", "not-yet-valid", "conditions-expired"}).Draw(t, "window")
 	if c.Mode == "skip" {
 		c.SP.Skip = true
 	}
@@ -83,6 +86,12 @@ func finishC06(c *C06Case, fail func(error)) {
 	g := gridGenuine(c.SP, 1+c.Others, c.Mode)
 	f := &g.Model.Assertions[0]
 	f.Audiences, f.OneTimeUse, f.HasProxy, f.ProxyCount, f.ProxyAudience = c.First.Audiences, c.First.OneTimeUse, c.First.HasProxy, c.First.ProxyCount, c.First.ProxyAudience
+	switch c.Window {
+	case "not-yet-valid":
+		f.NotBefore = h.S(c.SP.Now().Add(time.Minute).UTC().Format(time.RFC3339))
+	case "conditions-expired":
+		f.NotOnOrAfter = h.S(c.SP.Now().Add(-time.Minute).UTC().Format(time.RFC3339))
+	}
 	wantNIA := notInAudience(c.First.Audiences, c.SP.Audience)
 	for i := 1; i < len(g.Model.Assertions); i++ {
 		// later assertions carry the opposite conditions, to catch reading the wrong assertion
@@ -140,7 +149,7 @@ func checkC06(c C06Case) h.Outcome {
 		}
 	}
 	o.NonTrivial = multi || emptyR || near || c.SP.Audience == ""
-	o.Classes = append(o.Classes, "mode:"+c.Mode, fmt.Sprintf("restrictions:%d", len(c.First.Audiences)), fmt.Sprintf("otu:%v", c.First.OneTimeUse), fmt.Sprintf("proxy:%v", c.First.HasProxy), fmt.Sprintf("others:%d", c.Others))
+	o.Classes = append(o.Classes, "window:"+c.Window, "mode:"+c.Mode, fmt.Sprintf("restrictions:%d", len(c.First.Audiences)), fmt.Sprintf("otu:%v", c.First.OneTimeUse), fmt.Sprintf("proxy:%v", c.First.HasProxy), fmt.Sprintf("others:%d", c.Others))
 	if emptyR {
 		o.Classes = append(o.Classes, "empty-restriction")
 	}
@@ -187,8 +196,8 @@ func checkC06(c C06Case) h.Outcome {
 			return o
 		}
 	}
-	if w.InvalidTime {
-		o.Violation = h.V("spurious-invalidtime", "InvalidTime raised inside the window")
+	if wantIT := c.Window == "not-yet-valid" || c.Window == "conditions-expired"; w.InvalidTime != wantIT {
+		o.Violation = h.V("invalidtime-mismatch", "InvalidTime=%v for window %q", w.InvalidTime, c.Window)
 	}
 	return o
 }
@@ -228,7 +237,7 @@ func TestC06_Grid(t *testing.T) {
 		for i, l := range lists {
 			sp := h.BaseSP()
 			sp.Audience = uri
-			c := C06Case{SP: sp, Mode: []string{"response", "assertions", "skip"}[i%3], Others: i % 2}
+			c := C06Case{SP: sp, Mode: []string{"response", "assertions", "skip"}[i%3], Others: i % 2, Window: []string{"in", "not-yet-valid", "conditions-expired", "in"}[i%4]}
 			if c.Mode == "skip" {
 				c.SP.Skip = true
 			}
